@@ -344,6 +344,24 @@ type site struct {
 	entry Entry
 	proxy reflect.Value
 	subs  map[string]reflect.Value // subscribe method -> channel
+	held  reflect.Value            // a second proxy of the interface, over a client that lets another caller in
+	hold  *holdClient
+	mk    func() (reflect.Value, error)
+}
+
+// holdClient is a bus.Client that runs `between` — once — after a call has been handed to it (its arguments are
+// encoded) and before it hands the call on.
+type holdClient struct {
+	bus.Client
+	between func()
+}
+
+func (h *holdClient) Call(cancel <-chan struct{}, serviceID, objectID, methodID uint32, payload []byte) ([]byte, error) {
+	if f := h.between; f != nil {
+		h.between = nil
+		f()
+	}
+	return h.Client.Call(cancel, serviceID, objectID, methodID, payload)
 }
 
 func unhex(s string) []byte {
@@ -400,7 +418,18 @@ func Run(entries []Entry) {
 			fmt.Println("FATAL proxy", e.Name, err)
 			os.Exit(3)
 		}
-		sites[e.Name] = &site{entry: e, proxy: reflect.ValueOf(e.Make(sess, p)), subs: map[string]reflect.Value{}}
+		st := &site{entry: e, proxy: reflect.ValueOf(e.Make(sess, p)), subs: map[string]reflect.Value{}, hold: &holdClient{}}
+		e, p := e, p
+		st.mk = func() (reflect.Value, error) {
+			_, ch, err := bus.SelectEndPoint([]string{addr}, "", "")
+			if err != nil {
+				return reflect.Value{}, err
+			}
+			st.hold.Client = bus.NewClient(ch)
+			hp := bus.NewProxy(st.hold, *p.MetaObject(), p.ServiceID(), p.ObjectID())
+			return reflect.ValueOf(e.Make(sess, hp)), nil
+		}
+		sites[e.Name] = st
 	}
 	fmt.Println("READY")
 	out := bufio.NewWriter(os.Stdout)
@@ -471,11 +500,33 @@ func exec(rec *Rec, sites map[string]*site, f []string) string {
 		return "bad-interface"
 	}
 	switch f[0] {
-	case "call":
+	case "call", "callheld":
 		// call <itf> <goMethod> <implKey> <retsig|-> <rethex> (<sig> <hex>)*
 		m := st.proxy.MethodByName(f[2])
 		if !m.IsValid() {
 			return "no-method"
+		}
+		if f[0] == "callheld" {
+			// the same method of a second proxy of the interface, whose client lets another caller in: between the
+			// encoding of the arguments and the message, a whole call of the method with zero values through the
+			// ordinary proxy (the interleaving "A has encoded, B calls, A sends")
+			if !st.held.IsValid() {
+				if st.mk == nil {
+					return "no-held-proxy"
+				}
+				hp, err := st.mk()
+				if err != nil {
+					return "no-held-proxy " + errClass(err)
+				}
+				st.held = hp
+			}
+			other := m
+			m = st.held.MethodByName(f[2])
+			zero := make([]reflect.Value, other.Type().NumIn())
+			for i := range zero {
+				zero[i] = reflect.Zero(other.Type().In(i))
+			}
+			st.hold.between = func() { other.Call(zero) }
 		}
 		key := f[3]
 		var retN *node
